@@ -2510,8 +2510,11 @@ fn run_search(args: &Args) -> Report {
     // 1. the differing requests
     if let Ok(txt) = std::fs::read_to_string(&args.file) {
         for l in txt.lines().filter(|l| !l.is_empty()) {
-            if l.starts_with("unlisted public fn") || l.starts_with("listed public fn") || l.starts_with("inventory") || l.starts_with("timing ") {
+            if l.starts_with("unlisted public fn") || l.starts_with("listed public fn") || l.starts_with("inventory") {
                 continue;
+            }
+            if l.starts_with("timing ") && DBG {
+                continue; // re-measured by the release build only
             }
             let (m, i) = run_request_pair(l);
             col.rep.evaluations += 1;
@@ -2519,6 +2522,11 @@ fn run_search(args: &Args) -> Report {
                 col.rep.failures.push((l.to_string(), describe_failure(&i)));
             }
         }
+    }
+    if col.rep.failures.iter().any(|(c, _)| c.starts_with("timing ")) {
+        // a differing timing request reproduced: report it now (the streams and the full experiment would
+        // only repeat what the correspondence run already did)
+        return col.rep;
     }
     // 3. generic exercise of public fns that have no table row
     for e in &unlisted {
